@@ -514,6 +514,8 @@ class Engine:
         s.unsupported = {}
         s.fn_used = set(); s.models_used = set()
         s.deadline = None
+        # second solver: every XCHECK-th discharged query is re-decided by cvc5 (SMT-LIB2 export); disagreements make the run inconclusive
+        s.xcheck_every = int(os.environ.get('VERIF_XCHECK_EVERY', '1500')); s.xcheck = {'checked': 0, 'agree': 0, 'unknown': 0, 'disagree': []}
     def check(s, pc):
         """sat?(conjunction of pc) with model. The solver's assertion stack mirrors the longest common prefix with the previous
         query, so that successive queries of one path only add their new constraints."""
@@ -536,7 +538,20 @@ class Engine:
             s.solver.pop(len(st)); del st[:]
             raise Unsupported('solver unknown: ' + s.solver.reason_unknown())
         s.cache[skey] = (r == z3.sat, m, pc)      # pc kept: AST ids are only unique among live ASTs
+        if s.xcheck_every and s.queries % s.xcheck_every == 0: s.cross_check(pc, r == z3.sat)
         return s.cache[skey][:2]
+    def cross_check(s, pc, z3_sat):
+        import subprocess
+        try:
+            sol = z3.Solver(); sol.add(*pc); txt = '(set-logic ALL)\n' + sol.to_smt2()
+            r = subprocess.run(['cvc5', '--lang', 'smt2', '--tlimit=8000'], input=txt, capture_output=True, text=True, timeout=20)
+            out = r.stdout.strip().split('\n')[0] if r.stdout.strip() else ''
+            s.xcheck['checked'] += 1
+            if '(error' in r.stdout or out not in ('sat', 'unsat'): s.xcheck['unknown'] += 1
+            elif (out == 'sat') == z3_sat: s.xcheck['agree'] += 1
+            else: s.xcheck['disagree'].append({'z3': 'sat' if z3_sat else 'unsat', 'cvc5': out, 'query': txt[:600]})
+        except Exception:
+            s.xcheck['checked'] += 1; s.xcheck['unknown'] += 1
     def explore(s, body, on_path, max_paths=10**9, prefixes=None, stop_at_stack=None):
         """body(ex) runs one path; returns result. DFS with re-execution from decision prefixes.
         Returns (paths_completed, remaining_prefixes). remaining is non-empty when the deadline / max_paths / stop_at_stack hit."""
